@@ -14,7 +14,9 @@ const nQuick, nThorough = 350, 6000
 var profile = envh.Profile{MaxHooks: 8, MaxReqs: 8, FailP: 300, BodyFailP: 100, IllegalP: 60, TaskHookP: 300, FloatP: 150,
 	TeardownP: 40, ControlP: 200}
 
-const rule = "every sixth case a late collection (a call awaited at a later weight pass / later moment / later transition than its trigger, with a short " +
+const rule = "the grid of the WAYS a call hook can fail (by __call_error, with a reason, by its own timeout, by a cancelled request, by a Go error of the plugin function, by both, " +
+	"by a panic, by a function the plugin does not export, by a plugin that is not loaded, by an expression that does not compile) x critical or not x before_/leave_/enter_/after_ x weight sign, once each " +
+	"(thorough: 8 times), the transition retried and followed by the next one; in every other of the remaining cases half of the failing call hooks fail in such named ways; every sixth case a late collection (a call awaited at a later weight pass / later moment / later transition than its trigger, with a short " +
 	"timeout of its own (6..10 ms) and a healthy slow hook (5x that) between its start and its await point; failing or not, critical or not), every third a cluster " +
 	"(several hooks failing at one point); otherwise random walks of 1..8 requests over 0..8 hooks where 30% of hook executions fail (call error / task non-zero exit), critical or not, " +
 	"alone or several at one point; non-trivial = at least one failing execution scripted and actually executed, and >=2 requests; distinct by input text"
